@@ -80,8 +80,12 @@ typedef struct { size_t n, p, npc; ld *sv; double *cum, *vtol, *floor_; } tolset
 
 /* compare a model expressed in the coordinates of the reference (tb: n x npc scores, pb: p x npc loadings, ve: varexp) with reference
    scores ta, loadings pa, varexp va; factor = 1 (against the oracle) or 2 (two fitted models); one sign per component */
-static void compare(vh_ctx *c, const char *clause, const tolset *t, const ldm *ta, const ldm *pa, const ld *va,
-                    const ldm *tb, const ldm *pb, const double *vb, double factor)
+/* Tref: reference-preprocessed data in reference coordinates; Q: rotation applied to the variables of the fit behind (tb, pb), or NULL.
+   Returns the number of leading components judged.  When component k disagrees, the input class is determined first: was the fit
+   started from a column (almost) orthogonal to the dominant axis of its residual (NIPALS then legitimately meets its stopping rule on
+   another axis, see drv_util.h)?  That class gets its own key, and the components behind it are not judged (they inherit the swap). */
+static size_t compare(vh_ctx *c, const char *clause, const tolset *t, const ldm *ta, const ldm *pa, const ld *va,
+                    const ldm *tb, const ldm *pb, const double *vb, double factor, const ldm *Tref, const ldm *Q)
 {
   size_t i, j, k; char key[160], mx1[64], mx2[64], mx3[64];
   snprintf(mx1, sizeof mx1, "max_%s_loading_over_bound", clause);
@@ -97,6 +101,18 @@ static void compare(vh_ctx *c, const char *clause, const tolset *t, const ldm *t
     for (i = 0; i < t->n; i++) { ld d = LM(tb, i, k) - sg * LM(ta, i, k); dt += d * d; }
     dt = sqrtl(dt) / t->sv[k];
     dv = fabs((double)(vb[k] - va[k])) / (double)va[k];
+    if (!((double)dp <= CANGLE * bound) || !((double)dt <= CANGLE * bound) || !(dv <= CVAR * vbound)) {
+      ldm *E = ldm_copy(Tref); size_t a, b, q; double rho2, cos0, thr;
+      for (q = 0; q < k; q++) for (a = 0; a < t->n; a++) for (b = 0; b < t->p; b++) LM(E, a, b) -= LM(tb, a, q) * LM(pb, b, q);
+      if (Q) { ldm *EQ = ldm_new(t->n, t->p); for (a = 0; a < t->n; a++) for (b = 0; b < t->p; b++) { ld x = 0; for (q = 0; q < t->p; q++) x += LM(E, a, q) * LM(Q, q, b); LM(EQ, a, b) = x; } ldm_free(E); E = EQ; }
+      cos0 = nipals_start_cos(E, &rho2); thr = nipals_wrong_axis_threshold(t->n, DOC_PCACONVERGENCE, rho2);
+      ldm_free(E);
+      if (cos0 <= thr) {
+        vh_fail(c, "PCA|converged-to-non-dominant-axis|start-column-orthogonal-to-dominant-axis", "%s, component %zu: |p - (+/-)p_ref| = %.3Lg (cos %.6Lg), varexp %.10g vs %.10Lg; the start column of this component has |cos| %.3g to the dominant axis of its residual (class threshold %.3g, eigenvalue ratio %.4f)", clause, k, dp, dot, vb[k], va[k], cos0, thr, rho2);
+        vh_obs("components_not_judged_behind_a_wrong_axis_start", (double)(t->npc - k - 1));
+        return k;
+      }
+    }
     vh_max(mx1, (double)dp / bound); vh_max(mx2, (double)dt / bound); vh_max(mx3, dv / vbound);
     if (!((double)dp <= CANGLE * bound)) {
       snprintf(key, sizeof key, "PCA|%s|loading", clause);
@@ -111,6 +127,7 @@ static void compare(vh_ctx *c, const char *clause, const tolset *t, const ldm *t
       vh_fail(c, key, "component %zu: varexp %.12g, reference %.12Lg (100 eigenvalue/trace), relative deviation %.3g, bound %.3g (x%g head-room)", k, vb[k], va[k], dv, vbound, CVAR);
     }
   }
+  return t->npc;
 }
 
 static void run_case(vh_ctx *c)
@@ -250,7 +267,7 @@ static void run_case(vh_ctx *c)
     for (i = 0; i < n; i++) LM(tb, i, k) = m->scores->data[i][k];
     vb[k] = m->varexp->data[k];
   }
-  compare(c, "eigen-oracle", &ts, ta, pa, va, tb, pb, vb, 1.0);
+  ts.npc = compare(c, "eigen-oracle", &ts, ta, pa, va, tb, pb, vb, 1.0, T, NULL);   /* later comparisons use the base model as reference: only its judged part */
   vh_obs("components_vs_oracle", (double)npc);
 
   /* from here the reference is the base model itself (both sides carry the stopping-rule error: factor 2) */
@@ -276,7 +293,7 @@ static void run_case(vh_ctx *c)
       for (i = 0; i < n; i++) LM(tb, rperm[i], k) = m2->scores->data[i][k];
       vb[k] = m2->varexp->data[k];
     }
-    compare(c, "row-permutation", &ts, ta, pa, va, tb, pb, vb, 2.0);
+    compare(c, "row-permutation", &ts, ta, pa, va, tb, pb, vb, 2.0, T, NULL);
     vh_obs("transform_row_permutation", 1);
   }
   DelPCAModel(&m2); DelMatrix(&mxt);
@@ -292,7 +309,7 @@ static void run_case(vh_ctx *c)
       for (i = 0; i < n; i++) LM(tb, i, k) = m2->scores->data[i][k];
       vb[k] = m2->varexp->data[k];
     }
-    compare(c, "column-permutation", &ts, ta, pa, va, tb, pb, vb, 2.0);
+    compare(c, "column-permutation", &ts, ta, pa, va, tb, pb, vb, 2.0, T, NULL);
     vh_obs("transform_column_permutation", 1);
   }
   DelPCAModel(&m2); DelMatrix(&mxt);
@@ -312,7 +329,7 @@ static void run_case(vh_ctx *c)
         for (i = 0; i < n; i++) LM(tb, i, k) = m2->scores->data[i][k];
         vb[k] = m2->varexp->data[k];
       }
-      compare(c, "rotation", &ts, ta, pa, va, tb, pb, vb, 2.0);
+      compare(c, "rotation", &ts, ta, pa, va, tb, pb, vb, 2.0, T, Q);
       vh_obs("transform_rotation", 1);
     }
     DelPCAModel(&m2); DelMatrix(&mxt); ldm_free(Q);
@@ -327,7 +344,7 @@ static void run_case(vh_ctx *c)
         for (i = 0; i < n; i++) LM(tb, rperm[i], k) = m2->scores->data[i][k];
         vb[k] = m2->varexp->data[k];
       }
-      compare(c, "row+column-permutation", &ts, ta, pa, va, tb, pb, vb, 2.0);
+      compare(c, "row+column-permutation", &ts, ta, pa, va, tb, pb, vb, 2.0, T, NULL);
       vh_obs("transform_row_and_column_permutation", 1);
     }
     DelPCAModel(&m2); DelMatrix(&mxt);
